@@ -132,13 +132,37 @@ fn cmd_ref(a: &Args) {
     if reverse {
         idx.reverse();
     }
-    let mut out = std::io::BufWriter::new(
-        std::fs::File::create(a.req("out")).unwrap_or_else(|e| die(&e.to_string())),
-    );
+    // `--resume 1`: a previous attempt of this partition died half-way; keep what it wrote
+    let resume = a.get("resume").is_some();
+    let mut done: std::collections::HashSet<String> = std::collections::HashSet::new();
+    if resume {
+        if let Ok(t) = std::fs::read_to_string(a.req("out")) {
+            for l in t.lines() {
+                if l.matches('\t').count() >= 5 {
+                    if let Some(id) = l.split('\t').next() {
+                        done.insert(id.to_string());
+                    }
+                }
+            }
+        }
+    }
+    let file = if resume {
+        std::fs::OpenOptions::new().append(true).create(true).open(a.req("out"))
+    } else {
+        std::fs::File::create(a.req("out"))
+    };
+    let mut out = std::io::BufWriter::new(file.unwrap_or_else(|e| die(&e.to_string())));
+    if resume {
+        // the dying process may have left a partial last line
+        let _ = writeln!(out);
+    }
     let t0 = Instant::now();
     let cur_path = format!("{}.cur", a.req("out"));
     for i in idx {
         let s = &cat.sources[i];
+        if done.contains(&s.id) {
+            continue;
+        }
         if reverse && s.text.len() > 64 * 1024 {
             // the long sources are lexed in the forward pass only
             continue;
